@@ -11,7 +11,7 @@ ID = "C12"
 RULE = (
     "case = backend x generated store (2 buckets, 0..6 events each with app/title/url/status keys) x program from the C11 generator biased towards the in-place "
     "annotators (categorize, tag, split_url_events, period_union, flood, simplify) x optional corruption making it raise midway (unknown function / wrong argument "
-    "type / undefined variable placed after an annotator has run on the direct result of query_bucket) x query window (any UTC offsets, sub-ms edges, zero width). "
+    "type / undefined variable placed after an annotator has run on the direct result of query_bucket) x query window (any UTC offsets, sub-ms edges, zero width; edges biased to within +-3 ms of the instants where stored events start or end). "
     "Oracle: API dump of every bucket before == after, whether the query returned or raised; RETURN=query_bucket(b) - alone and appended to the generated program, i.e. after its annotators ran in the same query - equals ds[b].get(starttime=S,endtime=E) event "
     "for event and query_bucket_eventcount(b) equals ds[b].get_eventcount(S,E) with S/E the instants handed to query(). "
     "Non-trivial = the program applies an in-place annotator to the direct result of query_bucket, or raises after having done so."
@@ -33,6 +33,21 @@ def strategy(draw, tier="quick"):
     corrupt = draw(st.one_of(st.none(), st.fixed_dictionaries({"kind": st.sampled_from(["unknown_function", "bad_type", "undefined_var", "bad_arity"]), "at": st.integers(0, 6), "annot": st.sampled_from(["categorize", "tag", "split_url_events", "flood"]), "b": st.integers(0, 1)})))
     s = draw(st.one_of(st.integers(-2 * 10**6, 22 * 10**6), st.integers(0, 22000).map(lambda m: m * 1000)))
     ln = draw(st.one_of(st.sampled_from([0, 1, 999, 1000]), st.integers(0, 25 * 10**6)))
+    # window edges a few ms (and sub-ms) around the instants where stored events start or end
+    edges = sorted({e["slot"] * 10**6 for evs in store for e in evs} | {(e["slot"] + e["dur_s"]) * 10**6 for evs in store for e in evs})
+    if edges and draw(st.booleans()):
+        near = st.tuples(st.sampled_from(edges), st.sampled_from([-3000, -2500, -2000, -1500, -1000, -999, -1, 0, 1, 999, 1000, 1001, 2000, 3000])).map(lambda t: t[0] + t[1])
+        which = draw(st.integers(0, 2))
+        if which in (0, 2):
+            e_abs = draw(near)
+            ln = max(0, e_abs - s)
+            if e_abs < s:
+                s, ln = e_abs, 0
+        if which in (1, 2):
+            s2 = draw(near)
+            end = s + ln
+            s = min(s2, end)
+            ln = end - s
     return {
         "backend": draw(st.sampled_from(stores.BACKENDS)),
         "store": store,
